@@ -5,6 +5,7 @@ import (
 	"flag"
 	"fmt"
 	"os"
+	"os/exec"
 	"path/filepath"
 	"regexp"
 	"sort"
@@ -177,6 +178,8 @@ func cmdCheck(args []string) {
 	var slows []slow
 	var samples []interface{}
 	knownHit := map[string]bool{}
+	failing := map[string][]*sym.Obligation{}
+	var failOrder []string
 	for _, ob := range obs {
 		sn := stableName(ob.Name)
 		present[sn]++
@@ -201,25 +204,54 @@ func cmdCheck(args []string) {
 			}
 			continue
 		}
-		doc := map[string]interface{}{"property": *prop, "obligation": ob.Name, "stable_name": sn, "kind": ob.Kind, "label": ob.Label,
-			"function": ob.Fn, "position": ob.Pos, "path": ob.Path, "status": ob.Status}
+		if failing[sn] == nil {
+			failOrder = append(failOrder, sn)
+		}
+		failing[sn] = append(failing[sn], ob)
+	}
+	// one VIOLATION line per obligation (all failing paths are listed in its replay file);
+	// replay is attempted on refuted paths until one is confirmed on the real code
+	for _, sn := range failOrder {
+		group := failing[sn]
+		var docs []map[string]interface{}
 		found := false
-		if ob.Result != nil {
-			doc["solver"] = ob.Result.Solver
-			doc["solver_status"] = ob.Result.Status
-			out := ob.Result.Output
-			if len(out) > 20000 {
-				out = out[:20000]
+		attempts := 0
+		status := group[0].Status
+		for _, ob := range group {
+			doc := map[string]interface{}{"property": *prop, "obligation": ob.Name, "stable_name": sn, "kind": ob.Kind, "label": ob.Label,
+				"function": ob.Fn, "position": ob.Pos, "path": ob.Path, "status": ob.Status}
+			if ob.Result != nil {
+				doc["solver"] = ob.Result.Solver
+				doc["solver_status"] = ob.Result.Status
+				out := ob.Result.Output
+				if len(out) > 20000 {
+					out = out[:20000]
+				}
+				doc["solver_output"] = out
+				doc["all_solvers"] = ob.Result.All
 			}
-			doc["solver_output"] = out
-			doc["all_solvers"] = ob.Result.All
+			if ob.Status == "refuted" {
+				status = ob.Status
+				if !found && attempts < 4 {
+					attempts++
+					if replayModel(e, ob, *repo, *verif, replayDir, doc) {
+						found = true
+						docs = append([]map[string]interface{}{doc}, docs...)
+						continue
+					}
+				}
+			}
+			if len(docs) < 8 {
+				docs = append(docs, doc)
+			}
 		}
-		if ob.Status == "refuted" {
-			rp := replayModel(e, ob, *repo, *verif, doc)
-			found = rp
+		top := docs[0]
+		top["failing_paths"] = len(group)
+		if len(docs) > 1 {
+			top["other_failing_paths"] = docs[1:]
 		}
-		p := writeReplay(ob.Name+fmt.Sprintf(".%d", ob.Ord), doc)
-		violate(ob.Name, p, found, "status="+ob.Status)
+		p := writeReplay(group[0].Name, top)
+		violate(group[0].Name, p, found, fmt.Sprintf("status=%s paths=%d", status, len(group)))
 	}
 	// tool errors: functions whose obligations could not be generated
 	for _, er := range e.Errors {
@@ -270,6 +302,23 @@ func cmdCheck(args []string) {
 		slows = slows[:5]
 	}
 	level := "proof"
+	// the level recorded is the one claimed for this property in MANIFEST.json ("other" for
+	// properties of which only necessary conditions / lemmas are proved)
+	var man struct {
+		Checks []struct {
+			PropertyID   string `json:"property_id"`
+			LevelClaimed struct {
+				Category string `json:"category"`
+			} `json:"level_claimed"`
+		} `json:"checks"`
+	}
+	if loadJSON(filepath.Join(*verif, "MANIFEST.json"), &man) == nil {
+		for _, c := range man.Checks {
+			if c.PropertyID == *prop && c.LevelClaimed.Category != "" {
+				level = c.LevelClaimed.Category
+			}
+		}
+	}
 	if len(knownHit) > 0 || violations > 0 {
 		level = "other"
 	}
@@ -349,9 +398,96 @@ func writeEvidence(path, prop, tier string, seed int, level string, cov map[stri
 	_ = os.WriteFile(path, b, 0o644)
 }
 
+// replayDrivers: functions for which a replay driver exists (value-level functions whose
+// inputs are fully described by the model's parameter values).
+var replayDrivers = map[string]string{
+	"maskGo": "maskGo", "writeFrameHeader": "writeFrameHeader", "readFrameHeader": "readFrameHeader",
+	"validWireCloseCode": "validWireCloseCode", "(CloseError).bytesErr": "bytesErr",
+	"parseClosePayload": "parseClosePayload", "(*Conn).SetReadLimit": "SetReadLimit",
+}
+
+var modelPair = regexp.MustCompile(`\(([^\s()]+) (#x[0-9a-fA-F]+|#b[01]+|true|false|\(_ bv\d+ \d+\))\)`)
+
+func parseModel(out string) map[string]string {
+	vals := map[string]string{}
+	for _, m := range modelPair.FindAllStringSubmatch(out, -1) {
+		v := m[2]
+		switch {
+		case strings.HasPrefix(v, "#x"):
+			if u, err := strconv.ParseUint(v[2:], 16, 64); err == nil {
+				v = strconv.FormatUint(u, 10)
+			}
+		case strings.HasPrefix(v, "#b"):
+			if u, err := strconv.ParseUint(v[2:], 2, 64); err == nil {
+				v = strconv.FormatUint(u, 10)
+			}
+		case strings.HasPrefix(v, "(_ bv"):
+			v = strings.Fields(v[5:])[0]
+		}
+		vals[m[1]] = v
+	}
+	return vals
+}
+
 // replayModel: counterexample replay on the real code (value-level functions).
-// Returns true only if an execution of the real code confirmed the violation.
-func replayModel(e *sym.Engine, ob *sym.Obligation, repo, verif string, doc map[string]interface{}) bool {
-	doc["replay"] = "not attempted: no replay harness for this function yet"
+// The model's values for the function's parameters (in$...) and declared replay inputs
+// (gvcin$..., from //@ input directives) are handed to a driver test that is injected into
+// the package with go test -overlay, calls the real function and compares with an oracle
+// written from the RFC. Returns true only if that execution shows the violation.
+func replayModel(e *sym.Engine, ob *sym.Obligation, repo, verif, replayDir string, doc map[string]interface{}) bool {
+	drv := replayDrivers[ob.Fn]
+	if drv == "" {
+		doc["replay"] = "not attempted: no replay driver for " + ob.Fn + " (drivers exist for value-level functions only)"
+		return false
+	}
+	if ob.Result == nil {
+		return false
+	}
+	vals := parseModel(ob.Result.Output)
+	inputs := map[string]string{}
+	for k, v := range vals {
+		if strings.HasPrefix(k, "in$") || strings.HasPrefix(k, "gvcin$") {
+			inputs[k] = v
+		}
+	}
+	if len(inputs) == 0 {
+		doc["replay"] = "not attempted: the solver's model binds none of the function's inputs"
+		return false
+	}
+	nm := strings.NewReplacer("/", "_", " ", "_", "*", "", "(", "", ")", "", ":", "_", "$", "_", "#", "_", "@", "_at_").Replace(ob.Name) + fmt.Sprintf(".%d", ob.Ord)
+	inPath := filepath.Join(replayDir, nm+".input.json")
+	b, _ := json.MarshalIndent(map[string]interface{}{"fn": ob.Fn, "obligation": ob.Name, "values": inputs}, "", " ")
+	_ = os.WriteFile(inPath, b, 0o644)
+	absRepo, _ := filepath.Abs(repo)
+	ov := map[string]interface{}{"Replace": map[string]string{
+		filepath.Join(absRepo, "zz_gvcreplay_common_test.go"): filepath.Join(verif, "replaydrv", "common.go.txt"),
+		filepath.Join(absRepo, "zz_gvcreplay_test.go"):        filepath.Join(verif, "replaydrv", drv+".go.txt"),
+	}}
+	ovPath := filepath.Join(replayDir, nm+".overlay.json")
+	b, _ = json.Marshal(ov)
+	_ = os.WriteFile(ovPath, b, 0o644)
+	args := []string{"test", "-overlay", ovPath, "-vet=off", "-count=1", "-timeout", "60s", "-run", "^TestGvcReplay$", "."}
+	cmd := exec.Command("go", args...)
+	cmd.Dir = absRepo
+	cmd.Env = append(os.Environ(), "GOFLAGS=-mod=mod", "GOPROXY=off", "GOSUMDB=off", "GOTOOLCHAIN=local", "GVC_REPLAY_INPUT="+inPath)
+	out, _ := cmd.CombinedOutput()
+	rp := map[string]interface{}{
+		"driver": filepath.Join(verif, "replaydrv", drv+".go.txt"), "input_file": inPath, "inputs": inputs,
+		"command": "cd " + absRepo + " && GVC_REPLAY_INPUT=" + inPath + " go " + strings.Join(args, " "),
+	}
+	doc["replay"] = rp
+	for _, ln := range strings.Split(string(out), "\n") {
+		if strings.HasPrefix(ln, "REPLAY-CONFIRMED:") {
+			rp["result"] = "confirmed on the real code"
+			rp["observed"] = strings.TrimSpace(strings.TrimPrefix(ln, "REPLAY-CONFIRMED:"))
+			return true
+		}
+	}
+	tail := string(out)
+	if len(tail) > 1500 {
+		tail = tail[len(tail)-1500:]
+	}
+	rp["result"] = "the model's input did not reproduce a violation on the real code (the failed obligation stands; the model may be an artefact of an abstraction)"
+	rp["output"] = tail
 	return false
 }
